@@ -10,6 +10,7 @@ import (
 	"math/rand/v2"
 	"os"
 	"os/exec"
+	"regexp"
 	"strings"
 	"sync"
 	"testing"
@@ -177,7 +178,202 @@ func TestC12(t *testing.T) {
 		}
 
 		wg.Wait()
+
+		// selector-filtered kind watches: the events such a watch delivers (incl. the Created / Destroyed it synthesises when an update moves a
+		// resource into / out of the selector) carry bookmarks too, and resuming the same filtered watch from the bookmark of event i yields
+		// exactly the events that followed it in the original stream
+		for k := 0; k < c.N(120, 6000); k++ {
+			wg.Add(1)
+			sem <- struct{}{}
+
+			go func() {
+				defer wg.Done()
+				defer func() { <-sem }()
+
+				rng := rand.New(rand.NewPCG(uint64(c.Seed)+12, uint64(k)))
+				synctest.Test(t, func(*testing.T) { filteredResume(c, rng, k) })
+			}()
+		}
+
+		wg.Wait()
 	})
+}
+
+type fev struct {
+	Type, ID string
+	Ver      uint64
+	BM       string
+}
+
+func filteredResume(c *vk.C, rng *rand.Rand, k int) {
+	ctx, cancel := context.WithCancel(context.Background())
+	defer func() {
+		cancel()
+		synctest.Wait()
+	}()
+
+	st := inmem.NewStateWithOptions(inmem.WithHistoryInitialCapacity(64), inmem.WithHistoryMaxCapacity(64), inmem.WithHistoryGap(4))("ns")
+	kind := resource.NewMetadata("ns", res.TypeA, "", resource.VersionUndefined)
+	agg := k%2 == 1
+
+	var sel []state.WatchKindOption
+
+	what := ""
+
+	switch k % 3 {
+	case 0:
+		sel, what = []state.WatchKindOption{state.WatchWithLabelQuery(resource.LabelEqual("in", "yes"))}, "label in=yes"
+	case 1:
+		sel, what = []state.WatchKindOption{state.WatchWithLabelQuery(resource.LabelExists("in", resource.NotMatches))}, "label !in"
+	default:
+		sel, what = []state.WatchKindOption{state.WatchWithIDQuery(resource.IDRegexpMatch(regexp.MustCompile("^[ab]"))), state.WatchWithLabelQuery(resource.LabelExists("in"))}, "id ^[ab] and label in"
+	}
+
+	collect := func(opts []state.WatchKindOption) ([]fev, error) {
+		wctx, wcancel := context.WithCancel(ctx)
+		defer wcancel()
+
+		var out []fev
+
+		add := func(ev state.Event) {
+			if ev.Type == state.Created || ev.Type == state.Updated || ev.Type == state.Destroyed {
+				out = append(out, fev{ev.Type.String(), ev.Resource.Metadata().ID(), ev.Resource.Metadata().Version().Value(), string(ev.Bookmark)})
+			}
+		}
+
+		if agg {
+			ch := make(chan []state.Event, 1024)
+			if err := st.WatchKindAggregated(wctx, kind, ch, opts...); err != nil {
+				return nil, err
+			}
+
+			synctest.Wait()
+
+			for more := true; more; {
+				select {
+				case evs := <-ch:
+					for _, ev := range evs {
+						add(ev)
+					}
+
+					synctest.Wait()
+				default:
+					more = false
+				}
+			}
+		} else {
+			ch := make(chan state.Event, 1024)
+			if err := st.WatchKind(wctx, kind, ch, opts...); err != nil {
+				return nil, err
+			}
+
+			synctest.Wait()
+
+			for more := true; more; {
+				select {
+				case ev := <-ch:
+					add(ev)
+					synctest.Wait()
+				default:
+					more = false
+				}
+			}
+		}
+
+		return out, nil
+	}
+
+	// history: creates, label flips (into / out of the selector), plain updates, destroys on four ids; the reference watch replays it
+	// from the very beginning (tail larger than the history)
+	ids := []string{"a", "b", "c", "ab"}
+
+	var trace []string
+
+	for i := 0; i < 10+rng.IntN(30); i++ {
+		id := ids[rng.IntN(len(ids))]
+		cur, err := st.Get(ctx, resource.NewMetadata("ns", res.TypeA, id, resource.VersionUndefined))
+
+		switch {
+		case err != nil:
+			r := res.New("ns", res.TypeA, id)
+			if rng.IntN(2) == 0 {
+				r.Metadata().Labels().Set("in", "yes")
+			}
+
+			_ = st.Create(ctx, r)
+			trace = append(trace, "create "+id)
+		case rng.IntN(6) == 0:
+			_ = st.Destroy(ctx, cur.Metadata())
+			trace = append(trace, "destroy "+id)
+		default:
+			switch rng.IntN(3) {
+			case 0:
+				cur.Metadata().Labels().Set("in", "yes")
+			case 1:
+				cur.Metadata().Labels().Delete("in")
+			default:
+				cur.Metadata().Labels().Set("in", []string{"yes", "no"}[rng.IntN(2)])
+			}
+
+			res.SpecOf(cur).Token = fmt.Sprint("f", i)
+			_ = st.Update(ctx, cur)
+			trace = append(trace, fmt.Sprintf("update %s labels=%v", id, cur.Metadata().Labels().Raw()))
+		}
+	}
+
+	full, err := collect(append([]state.WatchKindOption{state.WithKindTailEvents(60)}, sel...))
+	if err != nil {
+		c.Violation("watch-establish-failed", map[string]any{"err": err.Error(), "mode": "filtered-resume"})
+
+		return
+	}
+
+	detail := func(m map[string]any) map[string]any {
+		m["mode"], m["selector"], m["aggregated"], m["writes"], m["stream"] = "filtered-resume", what, agg, trace, full
+
+		return m
+	}
+
+	for i, e := range full {
+		if e.BM == "" {
+			c.Violation("event-without-bookmark", detail(map[string]any{"event_index": i, "event": e}))
+
+			return
+		}
+	}
+
+	// resume from a few positions
+	for n := 0; n < 4 && len(full) > 0; n++ {
+		i := rng.IntN(len(full))
+
+		rest, rerr := collect(append([]state.WatchKindOption{state.WithKindStartFromBookmark(state.Bookmark(full[i].BM))}, sel...))
+		if rerr != nil {
+			c.Violation("recent-bookmark-rejected", detail(map[string]any{"event_index": i, "err": rerr.Error()}))
+
+			return
+		}
+
+		c.Count("filtered_resumes_checked", 1)
+
+		want := full[i+1:]
+		if len(rest) != len(want) {
+			c.Violation("filtered-resume-differs", detail(map[string]any{"resumed_after_event": i, "got": rest, "want": want}))
+
+			return
+		}
+
+		for j := range want {
+			if rest[j].Type != want[j].Type || rest[j].ID != want[j].ID || rest[j].Ver != want[j].Ver {
+				c.Violation("filtered-resume-differs", detail(map[string]any{"resumed_after_event": i, "got": rest, "want": want}))
+
+				return
+			}
+		}
+	}
+
+	c.Count("filtered_streams_checked", 1)
+	c.Count("filtered_events_checked", len(full))
+	c.Case(vk.Hash("filtered", k, trace), len(full) > 0)
 }
 
 func head(s []string, n int) []string {
